@@ -394,7 +394,36 @@ def check_defaults(chk):
         raise Unrecognised('C15.D', f'only {n} optional-argument default sites found', None)
 
 
+def check_reference_sim(chk, rule='C15.R'):
+    """the array / object / string functions evaluated (E6c) on pools of argument lists against the reference list / dict / str models -> True when every call agrees"""
+    from .. import libref
+    libfuncs = {lf.name: lf for lf in library_functions(chk.repo, rule)}
+    cache = getattr(chk, '_libref', None)
+    if cache is None:
+        cache = chk._libref = libref.run_library(chk.repo, libfuncs, chk.tier, rule)
+    counts, problems = cache
+    lib = chk.repo.module('library')
+    if problems:
+        by = {}
+        for fn, kind, msg in problems:
+            by.setdefault(fn, []).append((kind, msg))
+        for fn, items in by.items():
+            lf = libfuncs.get(fn)
+            chk.bad(rule, lib, lf.pyname if lf else fn, f'{fn}: {items[0][1][:100]}', f'evaluation of {fn} on {counts.get(fn, 0)} argument lists: {items[0][1][:500]} ({len(items)} calls deviate; '
+                    f'kinds: {", ".join(sorted({k for k, _m in items}))})', node=lf.func if lf else None)
+        for fn in counts:
+            if fn not in by:
+                chk.ok(rule, f'{fn}: {counts[fn]} calls agree with the reference model', count=counts[fn])
+        return False
+    for fn in sorted(counts):
+        chk.ok(rule, f'{fn}: {counts[fn]} calls (valid: every container / string template x indices -2 .. len+2 as floats and ints; invalid: wrong type in each position, missing, surplus) '
+               f'give the reference result, identity / freshness of the result, post-call state of the arguments and the documented failure value', count=counts[fn])
+    return True
+
+
 def run(chk):
+    chk.rule('C15.R', 'array / object / string functions = the reference list / dict / str model on pools of argument lists, incl. aliasing and failure values (evaluation, E6c)', floor=3000)
+    ref_ok = chk.guard('C15.R', check_reference_sim, chk)
     chk.rule('C15.V', 'failure value agreement (declared, explicit raises, documented sentinel)', floor=20)
     chk.rule('C15.M', 'validate (and every failure exit) before mutating an argument', floor=10)
     chk.rule('C15.B', 'index-taking array / string functions agree with the reference sequence model on every index (abstract execution, E6l)', floor=1000)
@@ -406,10 +435,15 @@ def run(chk):
     chk.guard('C15.V', check_failure_values, chk)
     chk.guard('C15.M', check_validate_before_mutate, chk)
     chk.guard('C15.B', check_bounds, chk)
-    chk.guard('C15.A', check_aliasing, chk)
+    # shape read-backs of the same contracts: advisory once the evaluation C15.R decided positively
+    run_rule = chk.advisory if ref_ok else chk.guard
+    run_rule('C15.A', check_aliasing, chk)
     chk.guard('C15.T', check_type_strictness, chk)
-    chk.guard('C15.H', check_wrappers, chk)
-    chk.guard('C15.D', check_defaults, chk)
+    run_rule('C15.H', check_wrappers, chk)
+    run_rule('C15.D', check_defaults, chk)
+    if ref_ok:
+        for r in ('C15.A', 'C15.H', 'C15.D'):
+            chk.floors.pop(r, None)
     # arraySort / arrayIndexOf / mathMax order and match elements by the value comparison (shared with C11.U)
     from . import c11
     chk.rule('C11.U', 'shared with C11: array functions order and match elements with value_compare only')
